@@ -84,6 +84,7 @@ func (m *CPU) Run(app risc.Application) (int, error) {
 	}()
 	cycle := 0
 	for {
+		m.ctx.VerifTick()
 		cycle++
 		log.Info(m.ctx, "Cycle %d", cycle)
 		m.decodeBus.Connect(cycle)
@@ -132,6 +133,7 @@ func (m *CPU) Run(app risc.Application) (int, error) {
 			cycle++
 			m.writeBus.Connect(cycle)
 			for !m.areWriteUnitsEmpty() || !m.writeBus.IsEmpty() {
+				m.ctx.VerifTick()
 				for _, wu := range m.writeUnits {
 					wu.cycle(m.ctx, -1)
 				}
@@ -145,6 +147,7 @@ func (m *CPU) Run(app risc.Application) (int, error) {
 			m.writeBus.Connect(cycle + 1)
 			for _, wu := range m.writeUnits {
 				for !wu.isEmpty() || !m.writeBus.IsEmpty() {
+					m.ctx.VerifTick()
 					cycle++
 					wu.cycle(m.ctx, from)
 				}
